@@ -536,11 +536,17 @@ class Aggregate(list):
 
     def __getattr__(self, attr: str):
         """Proxy access to attributes of SubAggregates"""
-        for subaggregate in self.subaggregates:
-            subagg = getattr(self, subaggregate)
+        for subaggregate, type_ in self.subaggregates.items():
+            # List members aren't stored as attributes; an unset attribute
+            # (e.g. on an instance being copied/unpickled) has nothing to proxy
+            if isinstance(type_, Types.ListAggregate):
+                continue
+            subagg = self.__dict__.get(subaggregate)
+            if subagg is None:
+                continue
             try:
                 return getattr(subagg, attr)
-            except (AttributeError, KeyError):
+            except AttributeError:
                 continue
         cls = self.__class__.__name__
         raise AttributeError(f"'{cls}' object has no attribute '{attr}'")
